@@ -421,6 +421,60 @@ func c18Run(c *h.Ctx) {
 			cases = append(cases, c18Case{n: 6, edges: randomConnected(gr, 6)})
 		}
 	}
+	// coalesced changes: a router loses one neighbour and gains another before anybody fetches its
+	// advertisement again, so one advertisement both withdraws and introduces destinations
+	nCoal := c.Pick(48, 160)
+	firstCoal := len(cases)
+	for i := 0; i < nCoal; i++ {
+		n := 4 + gr.Intn(2)
+		es := randomConnected(gr, n)
+		adj := func(x, y int) bool {
+			for _, e := range es {
+				if (e[0] == x && e[1] == y) || (e[0] == y && e[1] == x) {
+					return true
+				}
+			}
+			return false
+		}
+		var fs []c18Fault
+		b := gr.Intn(n)
+		var nb, non []int
+		for v := 0; v < n; v++ {
+			if v == b {
+				continue
+			}
+			if adj(b, v) {
+				nb = append(nb, v)
+			} else {
+				non = append(non, v)
+			}
+		}
+		if len(nb) < 2 {
+			continue
+		}
+		cdrop := nb[gr.Intn(len(nb))]
+		var d int
+		if len(non) > 0 && gr.Intn(2) == 0 {
+			d = non[gr.Intn(len(non))]
+		} else { // detach one of b's other neighbours first, then re-attach it together with the loss
+			d = cdrop
+			for d == cdrop {
+				d = nb[gr.Intn(len(nb))]
+			}
+			fs = append(fs, c18Fault{Kind: "isolate-router", A: d})
+		}
+		x, y := b, cdrop
+		if x > y {
+			x, y = y, x
+		}
+		fs = append(fs, c18Fault{Kind: "remove-link", A: x, B: y, Merge: true})
+		x, y = b, d
+		if x > y {
+			x, y = y, x
+		}
+		fs = append(fs, c18Fault{Kind: "add-link", A: x, B: y})
+		cases = append(cases, c18Case{n: n, edges: es, faults: fs})
+	}
 	nSched := c.Pick(3, 6)
 	for ci, base := range cases {
 		if ci%c.NBatch != c.Batch {
@@ -429,7 +483,11 @@ func c18Run(c *h.Ctx) {
 		for variant := 0; variant < c.Pick(4, 6); variant++ {
 			cs := base
 			fr := rand.New(rand.NewSource(c.Seed*1000003 + int64(ci)*101 + int64(variant)))
-			if variant > 0 {
+			if ci >= firstCoal {
+				if variant > 0 {
+					break // the fault sequence is part of the case
+				}
+			} else if variant > 0 {
 				cs.faults = c18Faults(fr, cs.n, cs.edges, 1+fr.Intn(4))
 			}
 			var ref []string
